@@ -130,7 +130,15 @@ def make_problem(spec):
             return pol0[s_index(state)]
 
         Tabular.initial_policy = initial_policy
-    return Tabular()
+    prob = Tabular()
+    cfg_attr = enc.get("config_attr")
+    if cfg_attr == "none":
+        prob.config = None  # a problem whose config attribute exists but is None: not reconstructible
+    elif cfg_attr == "target_none":
+        from mdpax.core.problem import ProblemConfig
+
+        prob.config = ProblemConfig(_target_=None)  # a config Hydra cannot instantiate (e.g. a notebook class): not reconstructible
+    return prob
 
 
 SOLVERS = {
